@@ -51,7 +51,7 @@ pub fn gen(rng: &mut Rng, idx: usize, n: usize, thorough: bool) -> String {
 /// edges are the rule
 fn gen_b(rng: &mut Rng, idx: usize, n: usize, thorough: bool) -> String {
     let frac = (idx * 100) / n.max(1);
-    let nvars = (2 + (frac * 5) / 100).min(7);
+    let nvars = (2 + (frac * 6) / 100).min(7);
     let perm = rng.perm(nvars);
     let mut s = format!("B {nvars}");
     for p in &perm {
@@ -62,7 +62,7 @@ fn gen_b(rng: &mut Rng, idx: usize, n: usize, thorough: bool) -> String {
         s.push_str(&format!(" v {v} {}", rng.coin() as u8));
     }
     let mut pool = nvars;
-    let nops = 2 + (frac * if thorough { 24 } else { 14 }) / 100 + rng.range(0, 3);
+    let nops = 3 + (frac * if thorough { 30 } else { 20 }) / 100 + rng.range(0, 3);
     for _ in 0..nops {
         let pick = |rng: &mut Rng, pool: usize| -> usize { if rng.chance(2, 3) { pool - 1 - rng.range(0, 3.min(pool - 1)) } else { rng.below(pool as u64) as usize } };
         let (i, j, k) = (pick(rng, pool), rng.below(pool as u64) as usize, pick(rng, pool));
@@ -175,7 +175,7 @@ fn gen_s(rng: &mut Rng, idx: usize, n: usize) -> String {
     rng.shuffle(&mut pool);
     pool.truncate(k);
     let consts = rng.chance(1, 12);
-    let depth = if rng.chance(1, 15) { 0 } else { 1 + (frac * 4) / 100 + rng.range(0, 1) };
+    let depth = if rng.chance(1, 15) { 0 } else { 2 + (frac * 4) / 100 + rng.range(0, 1) };
     let mut s = format!("S {}", if rng.chance(1, 10) { 3 } else { rng.range(0, 2) });
     gen_sx(rng, depth, true, &pool, consts, &mut s);
     s
@@ -253,13 +253,13 @@ fn gen_x(rng: &mut Rng, idx: usize, n: usize, thorough: bool) -> String {
     let nleaves = rng.range(if frac < 5 { 1 } else if frac < 40 { 2 } else { 3 }, maxleaves);
     let mut labels: Vec<u64> = rng.perm(NV).into_iter().map(|x| x as u64).collect();
     labels.truncate(nleaves);
-    let vt = match rng.below(5) {
+    let vt = match rng.below(8) {
         0 => vt_right(&labels),
-        1 => vt_left(&labels),
+        1 | 2 => vt_left(&labels),
         _ => vt_random(rng, &labels),
     };
-    let maxops = if thorough { 30 } else { 18 };
-    let mut nops = 3 + (frac * maxops) / 100 + rng.range(0, 3);
+    let maxops = if thorough { 34 } else { 24 };
+    let mut nops = 4 + (frac * maxops) / 100 + rng.range(0, 3);
     if !compress {
         nops = nops.min(12);
     }
@@ -1115,6 +1115,7 @@ fn run_x(case: &str, st: &mut Stats) -> Outcome {
         out.push(format!("{};{}", rs.join(" "), show_ptr(&root)));
     }
     if general { st.bump("x_cases_with_general_nodes") }
+    st.bump(&format!("x_maxrows={}", if maxrows < 2 { "0-1" } else if maxrows < 5 { "2-4" } else { "5+" }));
     st.bump(if compress { "x_compression_on" } else { "x_compression_off" });
     fails.truncate(5);
     Outcome { result: format!("X {}", out.join(" | ")), fails, nontrivial: maxrows >= 2 }
